@@ -13,7 +13,7 @@ from vlib.runner import Engine, Violation
 PROPERTY = 'C14'
 RULE = (
     'real Reactor + real Processes (pipe-backed helper process) with 1-4 neighbors (addresses sharing a textual prefix such as 10.0.0.1 / 10.0.0.10, different peer-as / router-id); '
-    'command sequence (1-30 lines) from a grammar: announce / withdraw route (valid and invalid), eor, route-refresh, watchdog, rib flush, session ack enable, comments, empty lines, unknown verbs, '
+    'command sequence (1-30 lines) from a grammar: announce / withdraw route (valid and invalid), several `;`-separated statements on one line (all valid, or one refused, whose prefixes must never reach a RIB), eor, route-refresh, watchdog, rib flush, session ack enable, comments, empty lines, unknown verbs, '
     'v4 spellings under API v6 and the reverse; selectors: *, one address, address + key/value terms that match or not, bracket lists, selectors matching no neighbor; '
     'the byte stream is written to the pipe in chunks cut at drawn points (1-byte chunks, cuts inside a line and across the newline); API version 6 and 4. '
     'Non-trivial = >= 1 rejected command, >= 1 selective command with >= 2 neighbors, and >= 1 cut inside a line'
@@ -34,6 +34,7 @@ POOL = [
 ]
 GHOSTS = ['10.0.0.100', '10.0.0.3', '192.0.2.70']
 PREFIXES = ['10.1.0.0/24', '10.1.1.0/24', '10.2.0.0/16']
+GHOST_PREFIXES = ['10.66.0.0/24', '10.66.1.0/24']  # only ever named by commands that are refused: must never reach a RIB
 
 
 def matches(sel: dict, n: dict) -> bool:
@@ -101,7 +102,7 @@ def command(draw, neighbors, version):
     """{'line': text, 'expect': 'done'|'error', 'touch': [neighbor indexes] (may change), 'selective': bool}"""
     everyone = list(range(len(neighbors)))
     kind = draw(
-        st.sampled_from(['announce', 'announce', 'announce', 'withdraw', 'invalid-route', 'eor', 'refresh', 'watchdog', 'flush', 'comment', 'empty', 'unknown', 'unknown-after-selector', 'other-version', 'ack-enable'])
+        st.sampled_from(['announce', 'announce', 'announce', 'withdraw', 'invalid-route', 'invalid-multi', 'valid-multi', 'eor', 'refresh', 'watchdog', 'flush', 'comment', 'empty', 'unknown', 'unknown-after-selector', 'other-version', 'ack-enable'])
     )
     sel = draw(selectors(neighbors))
     who = selected(sel, neighbors)
@@ -126,6 +127,15 @@ def command(draw, neighbors, version):
     if kind == 'invalid-route':
         bad = draw(st.sampled_from(['10.1.0.0/33 next-hop 1.2.3.4', '10.1.0.0/24 next-hop 1.2.3.999', '10.1.0.0/24 next-hop 1.2.3.4 med banana', '10.1.0.0/24 next-hop 1.2.3.4 frobnicate 3']))
         return {'line': f'{head}announce route {bad}', 'expect': 'error', 'touch': [], 'selective': selective}
+    if kind == 'invalid-multi':
+        # several statements on one line, one of them refused: the whole command is, and nothing of it may stay behind
+        good = f'route {draw(st.sampled_from(GHOST_PREFIXES))} next-hop 1.2.3.4 med {med}'
+        bad = 'route ' + draw(st.sampled_from(['10.66.9.0/24 next-hop not-an-ip', '10.66.9.0/33 next-hop 1.2.3.4', '10.66.9.0/24 next-hop 1.2.3.4 med banana']))
+        parts = draw(st.sampled_from([[good, bad], [bad, good], [good, good.replace('.0/24', '.128/25'), bad]]))
+        return {'line': f'{head}announce ' + ' ; '.join(parts), 'expect': 'error', 'touch': [], 'selective': selective}
+    if kind == 'valid-multi':
+        other = draw(st.sampled_from([x for x in PREFIXES if x != prefix]))
+        return {'line': f'{head}announce route {prefix} next-hop 1.2.3.4 med {med} ; route {other} next-hop 1.2.3.4 med {med}', 'expect': matched, 'touch': who, 'selective': selective}
     if kind == 'eor':
         # needs an established session to be accepted: with none up either terminal reply is right
         return {'line': f'{head}announce eor ipv4 unicast', 'expect': None if who else 'error', 'touch': who, 'selective': selective}
@@ -288,6 +298,13 @@ def check(case: dict) -> dict:
             if pos not in allowed and after[pos] != snaps[0][pos]:
                 kind = 'rejected-command-changed-rib' if c['expect'] == 'error' else 'unselected-neighbor-changed'
                 raise Violation(f'effect:{kind}', f'neighbor {POOL[j]["ip"]} changed by "{c["line"]}" (command {i}); neighbors {[n["ip"] for n in POOL[:case["n"]]]} api v{version}')
+    # nothing named only by refused commands is ever in a RIB, on any neighbor, at any step (the neighbor-level comparison above
+    # cannot see a leftover that a later accepted command carries along to the neighbors it is allowed to change)
+    for i, snap in enumerate(snaps):
+        text = repr(snap)
+        if '10.66.' in text:
+            j = max(0, i - 1)
+            raise Violation('effect:route-of-a-refused-command-in-a-rib', f'after command {j} "{cmds[j]["line"]}": {[g for g in GHOST_PREFIXES + ["10.66.9.0"] if g.split("/")[0] in text]} present; commands so far {[c["line"] for c in cmds[: j + 1]][-4:]}')
     rejected = any(c['expect'] == 'error' for c in cmds)
     selective = any(c['selective'] for c in cmds) and case['n'] >= 2
     inside = False
@@ -301,6 +318,10 @@ def check(case: dict) -> dict:
         classes.append('rejected-command')
     if selective:
         classes.append('selective')
+    if any(' ; ' in c['line'] for c in cmds):
+        classes.append('multi-statement-command')
+    if any(' ; ' in c['line'] and c['expect'] == 'error' for c in cmds):
+        classes.append('multi-statement-command-refused')
     if any(c['expect'] == 'error' and c['selective'] and 'frobnicate' not in c['line'] and '/33' not in c['line'] for c in cmds):
         classes.append('selector-matches-nobody')
     return {'nontrivial': rejected and selective and inside, 'classes': classes}
